@@ -25,6 +25,7 @@
 import IgrisModel.C08.Lemmas
 import IgrisModel.C08.More
 import IgrisModel.C08.Linear
+import IgrisModel.C08.Unsigned
 namespace Igris.C08
 open Igris.Proto
 
@@ -1643,6 +1644,33 @@ example : (memmoveA #[none, some 1#8, some 2#8, some 3#8, some 4#8, none] 2 1 3)
 example : (memmove (absA #[none, some 1#8, some 2#8, some 3#8, some 4#8, none]) 2 1 3).map (fun r => (readOut r.1 1 4, r.2)) =
     some (some [1#8, 1#8, 2#8, 3#8], 2) := by decide
 example : memmoveA #[none, some 1#8, some 2#8, some 3#8, some 4#8, none] 3 1 3 = none := by decide
+
+/-! ### round 3b: NO RESULT DEPENDS ON THE SIGNEDNESS OF PLAIN `char` (audit item 1).  Unsigned.lean holds the
+definitions of Model.lean that convert a plain `char` to `int`, with the zero-extending conversion of a target
+whose `char` is unsigned (ARM, PowerPC) instead of the sign-extending one.  They are the same functions - for
+all memories, arguments and fuels.  (All other functions of the library convert through `unsigned char`
+explicitly or compare bytes only, so their transcription does not mention the conversion at all.) -/
+
+theorem strstr_char_sign_free : @strstrU = @strstr := by
+  funext m h n fuel; exact strstrFU_eq id (Or.inl rfl) m h n fuel
+theorem strcasestr_char_sign_free : @strcasestrU = @strcasestr := by
+  funext m h n fuel; exact strstrFU_eq tolowerI (Or.inr rfl) m h n fuel
+theorem strcspn_char_sign_free : @strcspnU = @strcspn := by
+  funext m s r fuel; exact strcspnLoopU_eq m r fuel fuel s 0
+theorem strtok_r_char_sign_free : @strtok_rU = @strtok_r := by
+  funext m str delim save fuel
+  simp only [strtok_rU, strtok_r, tokSkipU_eq, strcspn_char_sign_free]
+  rfl
+theorem strlwr_char_sign_free : @strlwrU = @strlwr := by
+  funext m s fuel; simp only [strlwrU, strlwr, caseLoopU_eq 65 90 (by decide) (by decide)]
+theorem strupr_char_sign_free : @struprU = @strupr := by
+  funext m s fuel; simp only [struprU, strupr, caseLoopU_eq 97 122 (by decide) (by decide)]
+/-- strchr, and through it strrchr / strcspn / strtok, looks only at `(char)ch`: any two `int`s with the same low
+byte - in particular the sign-extended and the zero-extended value of a character - give the same call -/
+theorem strchr_depends_on_char_only (m : Mem) (s : Nat) (a b : Int) (fuel : Nat) (h : toChar a = toChar b) :
+    strchr m s a fuel = strchr m s b fuel := strchr_char_only m s a b fuel h
+/-- the two conversions really differ (on every byte >= 0x80), so the theorems above are not vacuous -/
+example : scInt 0xE1#8 = -31 ∧ ucInt 0xE1#8 = 225 ∧ toChar (-31) = toChar 225 := by decide
 
 /-- the class table is not degenerate: 26 + 26 letters, 10 digits, 6 white-space characters, 95 printing ones -/
 example : ((List.range 128).filter fun c => inClass (c : Nat) CL_U).length = 26 ∧
